@@ -604,6 +604,11 @@ class Engine:
                         return z3.If(v >= 0, z3.ToInt(v), -z3.ToInt(-v))
                     return v
                 return z3.ToReal(v) if v.sort() == I else v
+            if name in ("min", "max") and len(e.args) == 1:
+                v = self.ev(e.args[0], st, spec, ctx)
+                if isinstance(v, (SView, SSlice, SArr)):
+                    return self.reduce_minmax(v, name, st, spec, unparse(e))
+                raise OutOfSubset("min/max of one argument")
             if name in ("min", "max") and len(e.args) >= 2:
                 vs = [to_num(self.ev(a, st, spec, ctx)) for a in e.args]
                 r = vs[0]
@@ -776,6 +781,31 @@ class Engine:
         app = fn(*zargs)
         if sf.ast is None:
             return app
+        if sf.qdef and sf.name not in self._qdefs:
+            # quantified definitional axiom (pattern: the application itself), needed when the function is
+            # applied to bound variables
+            self._qdefs.add(sf.name)
+            bvs, env = [], {}
+            for pn, pt in zip(sf.params, sf.ptypes):
+                if pt in ("int", "bool", "real"):
+                    v = z3.Const(f"q_{sf.name}_{pn}", {"int": I, "bool": B, "real": R}[pt])
+                    env[pn] = v
+                else:
+                    nd = 1 if pt.startswith("arr1") else 2
+                    v = z3.Const(f"q_{sf.name}_{pn}", asort(nd, "real" if pt.endswith("r") else "int"))
+                    env[pn] = SArr(v, tuple(z3.Int(f"q_{sf.name}_{pn}_n{d}") for d in range(nd)), None)
+                bvs.append(v)
+            saved = (self.bound_depth, self.unfold_depth)
+            self.bound_depth, self.unfold_depth = 1, self.max_unfold   # no ground unfolding inside
+            try:
+                body = self.ev(sf.ast, State(env, z3.BoolVal(True)), True, {})
+            finally:
+                self.bound_depth, self.unfold_depth = saved
+            body = to_num(body) if sf.ret != "bool" else to_bool(body)
+            qapp = fn(*bvs)
+            self.facts.insert(0, z3.ForAll(bvs, qapp == body, patterns=[qapp]))
+            for o in self.obls:      # keep earlier obligations' fact prefixes aligned
+                o.nfacts += 1
         if self.bound_depth == 0 and self.unfold_depth < self.max_unfold:
             key = app.sexpr()
             if key not in self._unfolded:
@@ -968,6 +998,12 @@ class Engine:
 
     def assign(self, targets, value, st, s):
         if len(targets) != 1:
+            if all(isinstance(t, ast.Name) for t in targets):
+                val = self.ev_code(value, st)
+                self.flush_guarded(st, s)
+                for t in targets:
+                    self.bind(t, val, st, s)
+                return None
             raise OutOfSubset("chained assignment")
         tgt = targets[0]
         # reversal slice assignment  x[a:b:1] = x[c:d:-1] / x[c::-1]
@@ -1459,6 +1495,7 @@ class Engine:
         self._pending_i64 = []
         self._unfolded = set()
         self._seen_keys = set()
+        self._qdefs = set()
         fn = self.fs.node
         args = [a.arg for a in fn.args.args]
         if args and args[0] == "self":
@@ -1534,6 +1571,7 @@ class LemmaEngine(Engine):
         self._pending_i64 = []
         self._unfolded = set()
         self._seen_keys = set()
+        self._qdefs = set()
         self.assumed = []
 
     def mk(self, name, ty):
